@@ -28,13 +28,29 @@ type refCfg struct {
 	porder    []string
 	watchers  map[string]string // watcher -> task
 	mut       string
+	// labels: tasks carry a `name:` of their own that differs from their key - 1: the key of the NEXT task (labels
+	// and keys cross), 2: a free text. References (stage -> task, watcher -> task) go by key, never by label.
+	labels int
+}
+
+func (c refCfg) label(i int) string {
+	switch c.labels {
+	case 1:
+		return c.tasks[(i+1)%len(c.tasks)]
+	case 2:
+		return "Label-of-" + c.tasks[i]
+	}
+	return ""
 }
 
 func (c refCfg) yaml() string {
 	var b strings.Builder
 	b.WriteString("tasks:\n")
-	for _, t := range c.tasks {
+	for i, t := range c.tasks {
 		fmt.Fprintf(&b, "  %s:\n    command: [\"true\"]\n", t)
+		if l := c.label(i); l != "" {
+			fmt.Fprintf(&b, "    name: %q\n", l)
+		}
 	}
 	b.WriteString("pipelines:\n")
 	for _, p := range c.porder {
@@ -47,7 +63,7 @@ func (c refCfg) yaml() string {
 			}
 			switch {
 			case s.task != "":
-				fmt.Fprintf(&b, "%stask: %s\n", first, s.task)
+				fmt.Fprintf(&b, "%stask: %q\n", first, s.task)
 			case s.pipeline != "":
 				fmt.Fprintf(&b, "%spipeline: %s\n", first, s.pipeline)
 			case s.bare:
@@ -68,7 +84,7 @@ func (c refCfg) yaml() string {
 	if len(c.watchers) > 0 {
 		b.WriteString("watchers:\n")
 		for w, t := range c.watchers {
-			fmt.Fprintf(&b, "  %s:\n    watch: [\"*.nothing\"]\n    task: %s\n", w, t)
+			fmt.Fprintf(&b, "  %s:\n    watch: [\"*.nothing\"]\n    task: %q\n", w, t)
 		}
 	}
 	return b.String()
@@ -181,7 +197,7 @@ func genValid(rng *rand.Rand) refCfg {
 }
 
 func cloneCfg(c refCfg) refCfg {
-	n := refCfg{tasks: append([]string{}, c.tasks...), porder: append([]string{}, c.porder...), pipelines: map[string][]refStage{}, watchers: map[string]string{}, mut: c.mut}
+	n := refCfg{tasks: append([]string{}, c.tasks...), porder: append([]string{}, c.porder...), pipelines: map[string][]refStage{}, watchers: map[string]string{}, mut: c.mut, labels: c.labels}
 	for p, ss := range c.pipelines {
 		for _, s := range ss {
 			s.deps = append([]string{}, s.deps...)
@@ -297,6 +313,20 @@ func mutations(c refCfg, rng *rand.Rand) []refCfg {
 		m.watchers[w] = "no-such-task"
 		m.mut = "watcher -> unknown task"
 		out = append(out, m)
+	}
+	if c.labels == 2 {
+		// a task is referred to by its key: its label is not a name a stage or a watcher can use
+		for _, p := range c.porder {
+			for k, st := range c.pipelines[p] {
+				if st.task != "" && !st.unnamed {
+					m := cloneCfg(c)
+					m.pipelines[p][k].task = "Label-of-" + st.task
+					m.mut = fmt.Sprintf("stage %s.%s -> unknown task (the label of task %s instead of its key)", p, st.name, st.task)
+					out = append(out, m)
+					break
+				}
+			}
+		}
 	}
 	// inclusion cycles of length 1..3
 	for l := 1; l <= 3 && l <= len(c.porder); l++ {
@@ -482,6 +512,7 @@ func runC18(col *Collector, tier string, seed int64) {
 		forcePipes = map[int]int{0: 1, 1: 4, 2: 2}[i] // the first three: one pipeline, four, two; then as drawn
 		c := genValid(rng)
 		forcePipes = 0
+		c.labels = i % 3 // every third configuration: plain / crossing labels / free-text labels
 		cases = append(cases, c)
 		tags = append(tags, "valid")
 		for _, m := range mutations(c, rng) {
